@@ -71,6 +71,7 @@ Definition body_in (p e : nat) (b : option node) : Prop :=
 
 (** * Well-formed nodes (strict mode) *)
 Section WF.
+Variable tx : bool.   (* with the text clause of chars nodes? *)
 Variable s : str.
 Fixpoint wf_node (n : node) {struct n} : Prop :=
   let wf_items := fix wi (l : list (option node)) : Prop :=
@@ -80,7 +81,7 @@ Fixpoint wf_node (n : node) {struct n} : Prop :=
       | Some x :: r => wf_node x /\ wi r
       end in
   match n with
-  | NChars p e _ c => p <= e /\ e <= length s /\ c = slice s p e
+  | NChars p e _ c => p <= e /\ e <= length s /\ (tx = true -> c = slice s p e)
   | NComment p e _ c post => p <= e /\ e <= length s /\ 37%N :: c ++ post = slice s p e
   | NGroup p e _ dl dr b =>
       p <= e /\ e <= length s /\ chain p e (body_items b) /\ body_in p e b /\
@@ -121,42 +122,42 @@ Fixpoint wf_items (l : list (option node)) : Prop :=
 End WF.
 
 (** unfolding equations with the named [wf_items] *)
-Lemma wf_macro s p e m nm po a :
-  wf_node s (NMacro p e m nm po a) =
-  (p <= e /\ e <= length s /\ match a with None => True | Some (_, l) => chain p e l /\ wf_items s l end).
+Lemma wf_macro tx s p e m nm po a :
+  wf_node tx s (NMacro p e m nm po a) =
+  (p <= e /\ e <= length s /\ match a with None => True | Some (_, l) => chain p e l /\ wf_items tx s l end).
 Proof. reflexivity. Qed.
-Lemma wf_specials s p e m c a :
-  wf_node s (NSpecials p e m c a) =
-  (p <= e /\ e <= length s /\ match a with None => True | Some (_, l) => chain p e l /\ wf_items s l end).
+Lemma wf_specials tx s p e m c a :
+  wf_node tx s (NSpecials p e m c a) =
+  (p <= e /\ e <= length s /\ match a with None => True | Some (_, l) => chain p e l /\ wf_items tx s l end).
 Proof. reflexivity. Qed.
-Lemma wf_env s p e m nm a b :
-  wf_node s (NEnv p e m nm a b) =
+Lemma wf_env tx s p e m nm a b :
+  wf_node tx s (NEnv p e m nm a b) =
   (p <= e /\ e <= length s /\ chain p e (arg_items a ++ body_items b) /\ body_in p e b /\
-   match a with None => True | Some (_, l) => wf_items s l end /\
-   match b with None => True | Some x => wf_node s x end).
+   match a with None => True | Some (_, l) => wf_items tx s l end /\
+   match b with None => True | Some x => wf_node tx s x end).
 Proof. reflexivity. Qed.
-Lemma wf_list s a b items :
-  wf_node s (NList a b items) =
+Lemma wf_list tx s a b items :
+  wf_node tx s (NList a b items) =
   (match a, b with
    | Some x, Some y => x <= y /\ y <= length s /\ chain x y items
    | None, None => items = []
    | _, _ => False
-   end /\ wf_items s items).
+   end /\ wf_items tx s items).
 Proof. reflexivity. Qed.
-Lemma wf_group s p e m dl dr b :
-  wf_node s (NGroup p e m dl dr b) =
+Lemma wf_group tx s p e m dl dr b :
+  wf_node tx s (NGroup p e m dl dr b) =
   (p <= e /\ e <= length s /\ chain p e (body_items b) /\ body_in p e b /\
    match b with
    | None => True
-   | Some x => wf_node s x /\ prefix dl (slice s p e) /\ suffix dr (slice s p e)
+   | Some x => wf_node tx s x /\ prefix dl (slice s p e) /\ suffix dr (slice s p e)
    end).
 Proof. reflexivity. Qed.
-Lemma wf_math s p e m d dl dr b :
-  wf_node s (NMath p e m d dl dr b) =
+Lemma wf_math tx s p e m d dl dr b :
+  wf_node tx s (NMath p e m d dl dr b) =
   (p <= e /\ e <= length s /\ chain p e (body_items b) /\ body_in p e b /\
    match b with
    | None => True
-   | Some x => wf_node s x /\ prefix dl (slice s p e) /\ suffix dr (slice s p e)
+   | Some x => wf_node tx s x /\ prefix dl (slice s p e) /\ suffix dr (slice s p e)
    end).
 Proof. reflexivity. Qed.
 
@@ -167,19 +168,19 @@ Definition verbatim_o (s : str) (o : option node) : str :=
   match o with Some n => verbatim s n | None => [] end.
 
 (** * Lemmas *)
-Lemma wf_items_app s l1 l2 : wf_items s (l1 ++ l2) <-> wf_items s l1 /\ wf_items s l2.
+Lemma wf_items_app tx s l1 l2 : wf_items tx s (l1 ++ l2) <-> wf_items tx s l1 /\ wf_items tx s l2.
 Proof.
   induction l1 as [|[x|] l1 IH]; cbn [app wf_items]; tauto.
 Qed.
 
-Lemma wf_items_snoc s l n : wf_items s l -> wf_node s n -> wf_items s (l ++ [Some n]).
+Lemma wf_items_snoc tx s l n : wf_items tx s l -> wf_node tx s n -> wf_items tx s (l ++ [Some n]).
 Proof. intros A B. apply wf_items_app. cbn [wf_items]. tauto. Qed.
 
-Lemma wf_items_snoc_o s l o : wf_items s l -> match o with Some n => wf_node s n | None => True end ->
-  wf_items s (l ++ [o]).
+Lemma wf_items_snoc_o tx s l o : wf_items tx s l -> match o with Some n => wf_node tx s n | None => True end ->
+  wf_items tx s (l ++ [o]).
 Proof. intros A B. apply wf_items_app. destruct o; cbn [wf_items]; tauto. Qed.
 
-Lemma wf_span_le s n a b : wf_node s n -> nspan n = Some (a, b) -> a <= b /\ b <= length s.
+Lemma wf_span_le tx s n a b : wf_node tx s n -> nspan n = Some (a, b) -> a <= b /\ b <= length s.
 Proof.
   destruct n; unfold nspan; cbn [node_pos node_end].
   - intros H E; injection E as <- <-. cbn [wf_node] in H. lia.
@@ -333,14 +334,14 @@ Inductive in_tree : node -> node -> Prop :=
 | it_here n : in_tree n n
 | it_below m k n : In (Some k) (kids n) -> in_tree m k -> in_tree m n.
 
-Lemma wf_items_in s l k : wf_items s l -> In (Some k) l -> wf_node s k.
+Lemma wf_items_in tx s l k : wf_items tx s l -> In (Some k) l -> wf_node tx s k.
 Proof.
   induction l as [|[x|] l IH]; cbn [wf_items In]; [tauto| |].
   - intros [A B] [E|E]; [injection E as <-; exact A | auto].
   - intros A [E|E]; [discriminate | auto].
 Qed.
 
-Lemma wf_kids s n k : wf_node s n -> In (Some k) (kids n) -> wf_node s k.
+Lemma wf_kids tx s n k : wf_node tx s n -> In (Some k) (kids n) -> wf_node tx s k.
 Proof.
   destruct n; cbn [kids In].
   - tauto.
@@ -358,7 +359,7 @@ Proof.
 Qed.
 
 (** [wf_node] of the root is [wf_node] of every node of the tree *)
-Theorem wf_in_tree s m n : in_tree m n -> wf_node s n -> wf_node s m.
+Theorem wf_in_tree tx s m n : in_tree m n -> wf_node tx s n -> wf_node tx s m.
 Proof.
   induction 1 as [n|m k n I _ IH]; intros W; [exact W|]. apply IH. eapply wf_kids; eauto.
 Qed.
